@@ -81,7 +81,19 @@ class World (object):
       self.violated = (clause, what)
     raise Stop()
 
+  def reap (self):
+    """An owner the harness no longer references lives only as long as a strong subscription holds its bound
+    method; when the last one goes, the owner is freed and its weak subscriptions go with it."""
+    for hid in set(s.hid for s in self.subs if s.alive and s.weak):
+      if hid in self.owners: continue
+      if not any(s.alive and s.hid == hid and not s.weak for s in self.subs):
+        for s in self.subs:
+          if s.alive and s.hid == hid and s.weak:
+            s.alive = False
+            for d in self.stack: d.events.append(("rm", s.hid))
+
   def alive_subs (self, etype):
+    self.reap()
     xs = [s for s in self.subs if s.alive and s.etype == etype]
     xs.sort(key=lambda s: (-s.prio, s.sid))
     return xs
@@ -449,23 +461,24 @@ def minimal_keys (rep):
 
 def run (cfg):
   rv = _import()
-  depth = cfg.pick(3, 4)
-  dev = cfg.pick(2, 2)
+  # thorough: depth 4 with one non-default handler behaviour, and depth 3 with up to three
+  plans = cfg.pick([(3, 2)], [(4, 1), (3, 3)])
+  depth = max(d for d, _ in plans); dev = max(v for _, v in plans)
   rep = Report(PID, "model_checking")
-  rep.rule = ("every history of <=%d top-level operations (subscribe x priority{0,1} x {plain,once,weak,by-name}, "
+  rep.rule = ("every history of <=%d top-level operations (thorough: depth 4 with <=1 and depth 3 with <=3 non-default behaviours) (subscribe x priority{0,1} x {plain,once,weak,by-name}, "
               "unsubscribe by handler / eid / (type,eid) / eid+type, raise instance/class/no-errors form, undeclared "
               "type, drop weak owner) on a real EventMixin with up to %d handler identities (symmetry-reduced), every "
               "handler invocation choosing among %d behaviours with <=%d non-default ones per history; a final probe "
               "raise after every history. distinct = distinct (history tail, verdict) digests"
               % (depth, NH, len(BEH), dev))
-  rep.bound = dict(depth=depth, deviations=dev, handlers=NH)
+  rep.bound = dict(plans=[dict(depth=d, deviations=v) for d, v in plans], handlers=NH)
   rep.assumptions = ["handler identities are interchangeable (symmetry reduction)",
                      "ReventError raised by a handler is outside the alphabet",
                      "whether a handler added during a delivery takes part in it, and whether a handler removed by another before its turn still runs, is unconstrained"]
   # partition on the first operation
   w0 = World(rv, Ctx([]), rep)
   n0 = len(ops_alphabet(w0, not cfg.quick)) + 1
-  items = [([f], depth, dev, not cfg.quick) for f in range(n0)]
+  items = [([f], d, v, not cfg.quick) for (d, v) in plans for f in range(n0)]
   for r in pmap(_worker, items, cfg.workers, seed=cfg.seed):
     rep.merge(r)
   rep.state_count = rep.evaluations
